@@ -697,3 +697,28 @@ _extend("C18", [("""   library's is checked against the real binary (the OS is o
          ("C18_main_cluster", "CliRunProofs", "cli_cluster", ""),
          ("C18_never_model_gives_up", "CliRunProofs", "never_model_gives_up", "the model's own failure constructors are unreachable on the source path, except for the excluded repetition case")])
 PROPS["C18"] = (PROPS["C18"][0].replace(" (argument parsing part)", ""),) + PROPS["C18"][1:]
+
+# ---- SizeBounds.v: the output-size hypotheses follow from a bound on the input length ----
+_SB = "From BCL Require Import Proofs.ParserTotal Proofs.SizeBounds."
+_SBNOTE = """   The `_input` forms (Proofs/SizeBounds.v) have as ONLY hypotheses that the source is shorter than 2^56 bytes and that
+   it is accepted: the number of constants is at most the number of tokens, the code at most 40 bytes per token, the
+   lexer emits at most one token per byte plus two, and the parser never gives up (ParserTotal)."""
+_extend("C01", [("""a limit
+   error can only occur when the tree exceeds that limit (C01_language_characterised).""", """a limit
+   error can only occur when the tree exceeds that limit (C01_language_characterised).
+""" + _SBNOTE)], _SB,
+        [("C01_language_input", "SizeBounds", "bcl_language_input", ""),
+         ("C01_language_within_limits_input", "SizeBounds", "bcl_language_within_limits_input", "")])
+_extend("C02", [], _SB, [("C02_language_within_limits_input", "SizeBounds", "bcl_language_within_limits_input", "only hypotheses: input shorter than 2^56 bytes, accepted, within the two VM limits")])
+_extend("C03", [], _SB, [("C03_language_within_limits_input", "SizeBounds", "bcl_language_within_limits_input", "")])
+_extend("C06", [], _SB, [("C06_compiled_runs_clean_input", "SizeBounds", "compiled_runs_clean_input", ""),
+                         ("C06_constants_bounded_by_input", "SizeBounds", "constants_bounded_by_input", ""),
+                         ("C06_code_bounded_by_input", "SizeBounds", "code_bounded_by_input", ""),
+                         ("C06_token_count", "SizeBounds", "lex_token_count", "")])
+_extend("C10", [], _SB, [("C10_parsed_verifies_input", "SizeBounds", "parsed_verifies_input", "every accepted source shorter than 2^56 bytes compiles to code the verifier accepts"),
+                         ("C10_parsed_peak_input", "SizeBounds", "parsed_peak_input", "")])
+_extend("C18", [], _SB, [("C18_bdump_then_bload_input", "SizeBounds", "bdump_then_bload_input", ""),
+                         ("C18_never_model_gives_up_input", "SizeBounds", "never_model_gives_up_input", "")])
+APPEND["C09"] = ("""(* the well-formedness Dump needs, from a bound on the input length alone *)
+From BCL Require Import Proofs.ParserTotal Proofs.SizeBounds.""",
+[("C09_from_parse_input", "SizeBounds", "parse_wf_input", "")])
